@@ -33,7 +33,7 @@ type polSpec struct {
 
 func c10Policies(c *Ctx, r *Report) {
 	r.rule("C10.R1", "only available upstreams are returned; no method call on a nil slot (per policy, pools of 0..3, all availability/count vectors and random draws)", 6)
-	r.rule("C10.R2", "an upstream is returned whenever one is available (first, random, least_conn, round_robin over every starting counter value); nil is returned when none is (all policies)", 6)
+	r.rule("C10.R2", "an upstream is returned whenever one is available (first, random, random_choose, least_conn, round_robin over every starting counter value); nil is returned when none is (all policies)", 6)
 	r.rule("C10.R3", "first returns the earliest available upstream; least_conn returns one with the fewest connections among the available", 2)
 	specs := []polSpec{
 		{typ: "FirstSelection", iff: true, first: true, maxN: 3},
@@ -41,7 +41,8 @@ func c10Policies(c *Ctx, r *Report) {
 		{typ: "LeastConnSelection", iff: true, least: true, maxN: 3},
 		{typ: "RoundRobinSelection", iff: true, maxN: 3},
 		{typ: "IPHashSelection", maxN: 3},
-		{typ: "RandomChoiceSelection", maxN: 3, choose: 2},
+		{typ: "RandomChoiceSelection", iff: true, maxN: 3, choose: 2},
+		{typ: "RandomChoiceSelection", iff: true, maxN: 3, choose: 1},
 	}
 	availID, totalID := "modules/l4proxy.(*Upstream).available", "modules/l4proxy.(*Upstream).totalConns"
 	for _, sp := range specs {
@@ -205,8 +206,12 @@ func c10Policies(c *Ctx, r *Report) {
 			}
 			return strings.Join(x, "\n")
 		}
-		r.check(len(p1) == 0, "C10.R1", fnName, "only available", pos, fmt.Sprintf("%d paths", total), trim(p1))
-		r.check(len(p2) == 0, "C10.R2", fnName, "nil iff none", pos, fmt.Sprintf("%d paths (must-return-when-available claimed: %v)", total, sp.iff), trim(p2))
+		sfx := ""
+		if sp.choose > 0 && sp.choose != 2 {
+			sfx = fmt.Sprintf(" (choose=%d)", sp.choose)
+		}
+		r.check(len(p1) == 0, "C10.R1", fnName, "only available"+sfx, pos, fmt.Sprintf("%d paths", total), trim(p1))
+		r.check(len(p2) == 0, "C10.R2", fnName, "nil iff none"+sfx, pos, fmt.Sprintf("%d paths (must-return-when-available claimed: %v)", total, sp.iff), trim(p2))
 		if sp.first || sp.least {
 			r.check(len(p3) == 0, "C10.R3", fnName, "choice", pos, "the contractual choice is made", trim(p3))
 		}
